@@ -148,9 +148,30 @@ func c19QueueSize(qs any) (int64, bool) {
 }
 
 type c19Case struct {
+	Signal string   `json:"signal,omitempty"` // "" = logs | traces | metrics
 	Config string   `json:"config"`
 	Sizes  []int    `json:"request_sizes"`
 	Script []string `json:"backend_outcomes"`
+}
+
+func c19Sig(s string) pipeline.Signal {
+	switch s {
+	case "traces":
+		return pipeline.SignalTraces
+	case "metrics":
+		return pipeline.SignalMetrics
+	}
+	return pipeline.SignalLogs
+}
+
+func c19Unit(s string) string {
+	switch s {
+	case "traces":
+		return "spans"
+	case "metrics":
+		return "metric_points"
+	}
+	return "log_records"
 }
 
 type c19Obs struct {
@@ -213,7 +234,7 @@ func c19Body(c *c19Case, o *c19Obs) func() {
 			opts = append(opts, WithQueueBatch(qc, QueueBatchSettings[request.Request]{Encoding: c19Enc{}, Sizers: map[request.SizerType]request.Sizer[request.Request]{
 				request.SizerTypeRequests: request.RequestsSizer[request.Request]{}, request.SizerTypeItems: request.NewItemsSizer()}}))
 		}
-		be, err := NewBaseExporter(set, pipeline.SignalLogs, backend, opts...)
+		be, err := NewBaseExporter(set, c19Sig(c.Signal), backend, opts...)
 		if err != nil {
 			panic(err)
 		}
@@ -249,9 +270,19 @@ func c19Body(c *c19Case, o *c19Obs) func() {
 		vs.Sleep(500 * time.Millisecond)
 		_ = be.Shutdown(context.Background())
 		done = true
-		o.sent = c19Counter(tt, "otelcol_exporter_sent_log_records")
-		o.failed = c19Counter(tt, "otelcol_exporter_send_failed_log_records")
-		o.enq = c19Counter(tt, "otelcol_exporter_enqueue_failed_log_records")
+		unit := c19Unit(c.Signal)
+		o.sent = c19Counter(tt, "otelcol_exporter_sent_"+unit)
+		o.failed = c19Counter(tt, "otelcol_exporter_send_failed_"+unit)
+		o.enq = c19Counter(tt, "otelcol_exporter_enqueue_failed_"+unit)
+		// nothing may be booked under another signal's counters
+		for _, other := range []string{"log_records", "spans", "metric_points"} {
+			if other == unit {
+				continue
+			}
+			if n := c19Counter(tt, "otelcol_exporter_sent_"+other) + c19Counter(tt, "otelcol_exporter_send_failed_"+other) + c19Counter(tt, "otelcol_exporter_enqueue_failed_"+other); n != 0 {
+				o.violations = append(o.violations, fmt.Sprintf("%d items booked under the %s counters by a %s exporter", n, other, unit))
+			}
+		}
 		for k, v := range store.m {
 			if k != "" && k[0] >= '0' && k[0] <= '9' {
 				if r, err := (c19Enc{}).Unmarshal(v); err == nil {
@@ -347,8 +378,12 @@ func TestVerifC19(t *testing.T) {
 	}
 	recO(nil)
 	var n, nodes int64
+	for _, signal := range []string{"", "traces", "metrics"} {
 	for _, cf := range configs {
 		for _, ss := range sizeSeqs {
+			if signal != "" && len(ss) > 1 {
+				continue // the other signals: single-request histories (the per-signal code is the counter selection)
+			}
 			for _, sc := range scripts {
 				n++
 				if !ctx.Mine(n) {
@@ -357,7 +392,7 @@ func TestVerifC19(t *testing.T) {
 				if n%16 == 0 && ctx.Expired() {
 					return
 				}
-				c := &c19Case{cf, ss, sc}
+				c := &c19Case{signal, cf, ss, sc}
 				ctx.Nontrivial(vr.Hash(fmt.Sprint(*c)))
 				var o c19Obs
 				st := vs.Explore(vs.Opts{Bound: bound, Shards: 1, Expired: ctx.Expired, MaxExecs: int64(ctx.Param("max_execs", 0))}, c19Body(c, &o), func(s *vs.Sched, owned bool) bool {
@@ -385,6 +420,7 @@ func TestVerifC19(t *testing.T) {
 				nodes += st.Nodes
 			}
 		}
+	}
 	}
 	ctx.R.States = nodes
 }
